@@ -160,7 +160,7 @@ type Cfg struct {
 	Async    int    `json:"async"` // 0 off; 1 threshold 2 / timeout 2 steps; 2 threshold 100 / timeout 2 steps; 3 threshold 2 / timeout 1000 steps
 	Lower    bool   `json:"lower"` // sod.LowercaseNames
 	Ext      string `json:"ext"`
-	Index    int    `json:"index"`  // 0 struct tags; 1 nothing indexed (unique kept); 2 everything indexable indexed; 3 tags + P declared unique (only) by a custom schema
+	Index    int    `json:"index"`  // 0 struct tags; 1 nothing indexed (unique kept); 2 everything indexable indexed; 3 tags + P declared unique (only) by a custom schema; 4/5/6 tags + U64 / F64 / T declared unique by a custom schema
 	MapRev   bool   `json:"maprev"` // reversed map iteration order
 }
 
@@ -195,6 +195,19 @@ func (c Cfg) asyncParams() (thr int, timeout time.Duration) {
 	return 0, 0
 }
 
+// UniqueV names the field the custom schemas 4, 5 and 6 declare unique.
+func (c Cfg) UniqueV() string {
+	switch c.Index {
+	case 4:
+		return "U64"
+	case 5:
+		return "F64"
+	case 6:
+		return "T"
+	}
+	return ""
+}
+
 // Schema builds the sod.Schema value for Create under this configuration.
 func (c Cfg) Schema(of sod.Object) sod.Schema {
 	var s sod.Schema
@@ -226,6 +239,12 @@ func (c Cfg) Schema(of sod.Object) sod.Schema {
 				// (S is a plain string without case constraint: "A" and "a" are different values)
 				if p == "S" {
 					fd.Constraints.Unique = true
+				}
+			case c.Index >= 4:
+				// uniqueness on an unsigned (4), a float (5) or a time (6) field, declared in the custom schema only
+				if p == c.UniqueV() {
+					fd.Constraints.Unique = true
+					fd.Constraints.Index = true
 				}
 			case indexable:
 				fd.Constraints.Index = true
